@@ -14,6 +14,32 @@ re-verify them against the source and the I6 line.
 
 COUNTS (a module level Counter) is incremented once per *evaluated* clause, keyed by check name,
 so that a runner can see which checks are vacuous.
+
+Check names
+  C08  well_typed (rules literal, cast, measure, unary, arith_operand, ident, gate_operand_*, hwqubit,
+       call, return), imaginary_int_literal_type, arith_common_type, arith_void_undiagnosed,
+       measure_nonquantum_diagnosed, cast_written_type, decl_decision, assign_decision,
+       no_silent_downward
+  C09  declared_type (parts kind, const, width), width_truncated, width_replaced,
+       nonint_designator_diagnosed, const_designator, const_designator_diag,
+       designator_substituted_zero, nonconst_designator_silent, nonint_const_designator,
+       gate_signature, gate_params, def_signature, def_params, def_return_printed, alias_type,
+       gates_listing, stdgates_listing
+  C10  accessor_text, accessor_int, accessor_float, accessor_bits, accessor_bool, accessor_unit,
+       int_suffix_accepted, float_suffix_accepted, bitstring_suffix_accepted, int_value,
+       int_value_neg, float_value, float_value_neg, bitstring_value, bitstring_width, bool_value,
+       timing_int_value, timing_float_value, imag_int_value, imag_float_value,
+       bitstring_initializer_dropped, literal_reaches_graph
+
+Method: the I5 tree and the I6 graph are walked in parallel (every statement and expression arm of
+`syntax_to_semantics.rs` has a pairing rule; a shape that cannot be paired is counted under
+"(unaligned ...)" and skipped, never reported), which gives every graph node its source span;
+`well_typed` additionally visits every `(T type expr)` of the graph without needing the pairing.
+
+Reading of the property text where it leaves room: an upper-case radix prefix (`0B101`) is a legal
+spelling ("either prefix case") and is only required to have the right value; integer literals
+>= 2^128 are out of C10's range; const-ness of the common arithmetic type is C20's business and not
+checked here; the const flag of a def's return type is taken as the code sets it (const).
 """
 import collections
 import math
